@@ -147,6 +147,57 @@ def Y1(ctx, rows=None):
     return n
 
 
+def Y1c(ctx):
+    """No acquire on the failure path: once a try/post-acquire has performed its acquire load it cannot report failure
+    (a failed try_lock that synchronises with earlier unlocks adds a happens-before edge nobody promised)."""
+    prog = ctx.prog
+    rows = ["rt::mutex::Mutex::post_acquire", "rt::rwlock::RwLock::post_acquire_read_lock", "rt::rwlock::RwLock::post_acquire_write_lock"]
+    for fk in rows:
+        ck = fk + "::{closure#0}"
+        fn = need_fn(ctx, "Y1c", ck)
+        if fn is None:
+            continue
+        body = fn.body
+        inst = prog.ident(ck)
+        acq = [b for (b, t, c) in prog.sites(inst) if prog.callee_key(c) == SYNC + "::sync_load"]
+        fails = blocks_assigning_ret(body, lambda e: is_const_bool(e, False))
+        bad = [a for a in acq if any(f in body.reachable(a) for f in fails)]
+        if acq and not bad:
+            ctx.ok("Y1c", fk, "the acquire load is performed only on the successful path", [site_str(prog, ck, acq[0])])
+        elif not acq:
+            ctx.missing("Y1c", fk, "no acquire load")
+        else:
+            ctx.bad("Y1c", fk, "a failed acquisition still performs the acquire load: a failed try_lock/try_read/try_write synchronises with "
+                    "earlier releases (extra happens-before edge, hides races)", site_str(prog, ck, bad[0]))
+
+
+def O5(ctx):
+    """An acquire fence synchronises with *every* store the thread has read: the loop over stores has no early exit."""
+    prog = ctx.prog
+    fk = "rt::atomic::fence_acq"
+    fn = need_fn(ctx, "O5", fk)
+    if fn is None:
+        return
+    inst = prog.ident(fk)
+    acq = [b for (b, t, c) in prog.sites(inst) if prog.callee_key(c) == SYNC + "::sync_load"]
+    if not acq:
+        ctx.bad("O5", fk, "acquire fence performs no acquire load", fn.loc(), detail="none")
+        return
+    for b in acq:
+        ok, why = loop_continues_after(prog, inst, b)
+        if ok:
+            ctx.ok("O5", fk, "every store that passes the filter is acquired (no early exit from the store loop)", [site_str(prog, fk, b)])
+        else:
+            ctx.bad("O5", fk, "the acquire fence stops after the first matching store (%s): release edges carried by other stores the "
+                    "thread has read are lost (false data-race reports)" % why, site_str(prog, fk, b))
+    # both loops: all atomic objects, all tracked stores of each
+    keys = [prog.callee_key(c) for (b, t, c) in prog.sites(inst)]
+    if "rt::object::Store::<T>::iter_mut" in keys and "rt::atomic::State::stores_mut" in keys:
+        ctx.ok("O5", fk + ":domain", "iterates all atomic objects and State::stores_mut() of each", [fn.loc()])
+    else:
+        ctx.bad("O5", fk, "the acquire fence no longer visits all atomics / all tracked stores", fn.loc(), detail="domain")
+
+
 def _notify_wait(ctx):
     """Notify::wait: every return is either the modelled spurious one (via yield_now) or preceded by an acquire load."""
     prog = ctx.prog
@@ -305,7 +356,11 @@ def _join_edge(ctx, fn_key, what):
             f0 = mentions_field(a0, T, "causality")
             f1 = mentions_field(a1, T, "causality")
             if f0 and f1 and canon(f0) != canon(f1):
-                ctx.ok("Y1", fn_key, what, [site_str(prog, fn_key, b)])
+                if every_path_passes(body, [b]):
+                    ctx.ok("Y1", fn_key, what + " (on every path)", [site_str(prog, fn_key, b)])
+                else:
+                    ctx.bad("Y1", fn_key, "happens-before edge is conditional (%s): on some path of %s the clocks are not joined" % (what, fn_key),
+                            site_str(prog, fn_key, b), detail="join-conditional")
                 return
     ctx.bad("Y1", fn_key, "missing happens-before edge (%s): no `causality.join(&other.causality)` in %s" % (what, fn_key),
             fn.loc(), detail="join")
@@ -555,7 +610,7 @@ def O4(ctx):
 
 
 def run_all(ctx, which):
-    table = dict(Y2=Y2, Y3=Y3, Y4=Y4, O4=O4)
+    table = dict(Y2=Y2, Y3=Y3, Y4=Y4, O4=O4, O5=O5, Y1c=Y1c)
     for w in which:
         if w == "Y1":
             Y1(ctx)
